@@ -290,8 +290,11 @@ def build(cls, kw, w=None, rec=None):
     jnp = L["jnp"]
     args = {}
     if cls == "NNControlGaussianConditional":
-        W = w.f(rec, ("kw", "W")) if w is not None else jnp.asarray(kw["W"])
-        c = w.f(rec, ("kw", "c")) if w is not None else jnp.asarray(kw["c"])
+        # the control network's parameters are concrete constants of the control function (as for a user's
+        # trained network): never tracers, or the function object itself could not cross a jit boundary
+        with L["jax"].ensure_compile_time_eval():
+            W = jnp.asarray(np.asarray(kw["W"], dtype=np.float64))
+            c = jnp.asarray(np.asarray(kw["c"], dtype=np.float64))
         Sig = w.f(rec, ("kw", "Sigma")) if w is not None else jnp.asarray(kw["Sigma"])
         return L["CLS"][cls](Sigma=Sig, num_cond_dim=int(kw["num_cond_dim"]), num_control_dim=int(kw["num_control_dim"]),
                              control_func=lambda u: jnp.tanh(u @ W + c))
